@@ -22,7 +22,13 @@ class PurityBroken(Exception):
 
 def _public(self):
     try:
-        return S.norm(A.extract(self))
+        m = A.extract(self)
+        if m.get('fc') == 43 and m.get('dir') == 'rsp':
+            # more-follows / next-object-id are the paging result that encode() is specified to compute (C20); they are
+            # outputs of encode, not inputs: byte-identity of repeated encodes is judged by the history monitor instead
+            m.pop('more', None)
+            m.pop('next', None)
+        return S.norm(m)
     except Exception as e:  # noqa
         return ('unreadable', type(e).__name__)
 
